@@ -365,7 +365,7 @@ def run_backend(backend, node, rel):
             return ("exc", e, tr)
 
 
-def judge(ctx, kname, pos, t, backend, rel, unknown_field):
+def judge(ctx, kname, pos, t, backend, rel, unknown_field, check_leaves=True):
     text = to_text(t)
     o = drive.parse_ast(text)
     if o[0] != "ok":
@@ -404,13 +404,11 @@ def judge(ctx, kname, pos, t, backend, rel, unknown_field):
         if backend == "django" and isinstance(e, ImportError) and "geo" in kname + text:
             ctx.cls("outcome:geodjango-unavailable")
             return
-        if mod.startswith("sqlite3") or ename in ("OperationalError", "ProgrammingError") and \
-                ("no such function" in str(e) or "no such column" in str(e) and False):
-            if "no such function" in str(e) or "user-defined function raised" in str(e):
-                ctx.cls("outcome:db-lacks-function")
-                return
-        if ename in ("OperationalError",) and "no such function" in str(e):
-            ctx.cls("outcome:db-lacks-function")
+        if ename == "OperationalError" and ("no such function" in str(e)
+                                            or "user-defined function raised" in str(e)):
+            # the database lacks / rejects a function the backend legitimately emitted
+            # (REGEXP with an invalid pattern, ...): environment, not judged
+            ctx.cls("outcome:db-function-error")
             return
         if unknown_field and backend == "django" and ename == "FieldError":
             ctx.cls("outcome:django-field-error")   # Django's own unknown-field report
@@ -438,6 +436,8 @@ def judge(ctx, kname, pos, t, backend, rel, unknown_field):
                  sig=["none", nones[0][1], backend])
         return
     ctx.cls("outcome:translated")
+    if not check_leaves:
+        return
     # leaves
     if backend.startswith("sql-") or backend == "roundtrip":
         if not isinstance(res, str) or "None" in re.findall(r"\bNone\b", res):
@@ -503,6 +503,31 @@ def run(ctx):
                 ctx.sample({"kind": kname, "position": pos, "backend": backend,
                             "filter": to_text(t)})
     ctx.count("exhaustive_complete")
+    # thorough: random well-typed compositions (every function, nested) through all backends;
+    # judged on fall-through / None parts / foreign exceptions only (no leaf matching)
+    if ctx.thorough():
+        from ..gen import scalar, relational as R
+        rng = ctx.rng("c12-random")
+        p = scalar.Profile()
+        p.columns = dict(scalar.SCHEMA, g="guid", dd="date")
+        p.types = {"int", "float", "str", "bool", "datetime", "date", "guid"}
+        p.funcs = set(scalar.FUNCS) - {"geo.distance", "geo.length", "geo.intersects", "hassubset",
+                                       "hassubsequence"}
+        p.null_left = True
+        for i in range(4000):
+            if ctx.out_of_time():
+                break
+            if i % 4 == 3:
+                t = R.gen_filter(rng, "post", rng.randint(0, 2))
+                rel = True
+            else:
+                t = scalar.gen_bool(rng, p, rng.randint(1, 4))
+                rel = False
+            if T.size(t) > 60:
+                continue
+            for backend in BACKENDS:
+                judge(ctx, "random-typed" if not rel else "random-relational", "random", t, backend,
+                      rel, unknown_field=False, check_leaves=False)
     contracts.flush_counts(ctx)
 
 
